@@ -325,6 +325,16 @@ macro_rules! evt_enum {
         }
     };
 }
+// Rust identifiers outside ASCII: type names (the exported environment must still print as Candid source) and
+// field / variant names (hashed as UTF-8)
+#[allow(non_snake_case, uncommon_codepoints)]
+mod non_ascii {
+    use super::*;
+    cor_struct!(Größe { länge: u8, naïve: Option<String> });
+    unit_enum!(Température { Froid, Très_chaud });
+    cor_struct!(数据 { 名: Nat, 温度: Température });
+}
+pub use non_ascii::*;
 evt_enum!(EvtOld, KindOld);
 evt_enum!(EvtNew, KindNew);
 cor_struct!(HoldOld { e: Option<EvtOld>, n: u8, m: Option<BTreeMap<String, KindOld>> });
@@ -639,6 +649,7 @@ pub fn register_misc(v: &mut Vec<Entry>) {
     register_same_name(v);
     reg!(v; KindOld, KindNew, EvtOld, EvtNew, Option<EvtOld>, Option<EvtNew>, Vec<Option<EvtOld>>, Vec<Option<EvtNew>>, HoldOld, HoldNew,
          Option<BTreeMap<String, KindOld>>, Option<BTreeMap<String, KindNew>>, (Option<EvtOld>, u8), (Option<EvtNew>, u8));
+    reg!(v; Größe, Température, 数据, Vec<Größe>, G<Größe>, H<Température>, BTreeMap<Température, Größe>, Option<数据>, List<Größe>);
     reg!(v; S0, S1, S2, S3, S4, S5, S6, S7, S8, S9, Renamed, Bytes, Newtype, TupleS, UnitS, E1, Color, Tree, MA, MB, WrapList,
          Vec<S2>, Option<S3>, Vec<E1>, Option<E1>, BTreeMap<u8, E1>, (S1, E1), Vec<Color>, BTreeSet<Color>, BTreeMap<Color, u8>,
          List<S2>, List<Option<Int>>, G<S2>, G<Vec<u8>>, H<E1>, Vec<Tree>, Option<Tree>, Vec<MA>, (MA, MB), Option<MB>,
